@@ -317,6 +317,11 @@ def forms():
         "dict get": lambda m, x: _ab().dict({"a": x[0], "b": x[1] * 2}).get("b"),
         "nested containers": lambda m, x: _ab().tuple((_ab().list([x[0], 1.0]), _ab().dict({"k": x[1]}))),
         "seq contains": lambda m, x: x * (1.0 * (3.0 in _ab().tuple((x[0, 0], 3.0))) + 2.0 * (4.0 in _ab().list([x[0, 0], 3.0])) + 4.0 * len(_ab().tuple((x[0], 2.0, x[1])))),
+        "seq eq": lambda m, x: x * (1.0 * (_ab().tuple((x[0, 0] * 0 + 2.0, 3.0)) == (2.0, 3.0)) + 2.0 * (_ab().tuple((x[0, 0] * 0 + 2.0, 3.0)) != (2.0, 3.0))
+                                    + 4.0 * (_ab().list([x[0, 0] * 0 + 2.0, 3.0]) == [2.0, 4.0]) + 8.0 * (_ab().list([x[0, 0] * 0 + 2.0]) != [2.0, 4.0])
+                                    + 16.0 * (_ab().tuple((x[0, 0] * 0 + 2.0, 3.0)) == _ab().tuple((x[1, 1] * 0 + 2.0, 3.0))) + 32.0 * ((2.0, 3.0) == _ab().tuple((x[0, 0] * 0 + 2.0, 3.0)))),
+        "dict eq": lambda m, x: x * (1.0 * (_ab().dict({"a": x[0, 0] * 0 + 2.0, "b": 3.0}) == {"b": 3.0, "a": 2.0}) + 2.0 * (_ab().dict({"a": x[0, 0] * 0 + 2.0}) != {"a": 2.0})
+                                     + 4.0 * (_ab().dict({"a": x[0, 0] * 0 + 2.0}) == {"a": 2.5}) + 8.0 * ({"a": 2.0} == _ab().dict({"a": x[0, 0] * 0 + 2.0}))),
         "seq index": lambda m, x: float(_ab().list([x[0, 0], 3.0, 7.0]).index(7.0)) * x,
         "seq iter": lambda m, x: _ab().list([2.0 * e for e in _ab().tuple((x[0], x[1, 1], 1.5))]),
         "dict queries": lambda m, x: x * float(len(_ab().dict({"a": x[0], "b": 1.0})) + 4 * ("a" in _ab().dict({"a": x[0]})) + 8 * ("z" in _ab().dict({"a": x[0]}))
